@@ -16,19 +16,16 @@ func (ex *Exec) loopEnv(fr *Frame, st *State, h *ssa.BasicBlock, phiVals map[*ss
 	env := ex.baseEnv(fr, st)
 	refs := ex.refsOf(fr.fn)
 	for name, rs := range refs {
-		if _, isParam := env.vars[name]; isParam {
-			// parameters keep their entry meaning unless shadowed by a phi below
-		}
 		var best *debugRef
+		var bestDef *ssa.BasicBlock
+		bestOrder := -1
 		for i := range rs {
 			r := &rs[i]
 			var defBlock *ssa.BasicBlock
-			switch d := r.val.(type) {
-			case *ssa.Parameter, *ssa.FreeVar, *ssa.Const, *ssa.Global, *ssa.Function:
-				_ = d
-				defBlock = nil
-			case ssa.Instruction:
-				defBlock = d.Block()
+			defOrder := 0
+			if ins, ok := r.val.(ssa.Instruction); ok {
+				defBlock = ins.Block()
+				defOrder = ex.instrOrder(fr.fn, ins)
 			}
 			if phi, ok := r.val.(*ssa.Phi); ok && phi.Block() == h {
 				best = r
@@ -37,15 +34,17 @@ func (ex *Exec) loopEnv(fr *Frame, st *State, h *ssa.BasicBlock, phiVals map[*ss
 			if defBlock != nil && (!defBlock.Dominates(h) || defBlock == h) {
 				continue
 			}
-			if !r.block.Dominates(h) && r.block != h {
-				// the reference itself must not come from after the loop
-				if !(defBlock == nil || defBlock.Dominates(h)) {
-					continue
-				}
+			// prefer the most recently defined value that is available at the header
+			switch {
+			case best == nil:
+			case defBlock == nil:
+				continue // a parameter never beats a later definition
+			case bestDef == nil:
+			case defOrder > bestOrder:
+			default:
+				continue
 			}
-			if best == nil || r.order > best.order && r.block.Dominates(h) {
-				best = r
-			}
+			best, bestDef, bestOrder = r, defBlock, defOrder
 		}
 		if best == nil {
 			continue
@@ -105,6 +104,7 @@ func (ex *Exec) baseEnv(fr *Frame, st *State) *Env {
 	}
 	for i, p := range fr.fn.Params {
 		env.vars[p.Name()] = fr.args[i]
+		env.vars[p.Name()+"0"] = fr.args[i]
 	}
 	for i, p := range fr.fn.FreeVars {
 		b := fr.bindings[i]
@@ -593,4 +593,22 @@ func (ex *Exec) frameTerms(st *State, ms *ModSet, names []string) []frameTerm {
 		}
 	}
 	return out
+}
+
+var instrOrders = map[*ssa.Function]map[ssa.Instruction]int{}
+
+func (ex *Exec) instrOrder(fn *ssa.Function, ins ssa.Instruction) int {
+	m, ok := instrOrders[fn]
+	if !ok {
+		m = map[ssa.Instruction]int{}
+		n := 0
+		for _, b := range fn.Blocks {
+			for _, i := range b.Instrs {
+				n++
+				m[i] = n
+			}
+		}
+		instrOrders[fn] = m
+	}
+	return m[ins]
 }
